@@ -18,6 +18,9 @@
 //	F  concurrent encoders (concurrent.go, child process): several goroutines encode their own packs of
 //	   each type at the same time (ToBytesPack and makeData on one shared client); every result must equal
 //	   that pack's single-threaded reference bytes; a crash / race-detector abort is an outcome
+//	I  queued routes (queue.go): queue-mode clients (Send / SendFlush only enqueue; process() or SendAndClear
+//	   build the frame later): packs of all types with boundary header values (time 0, oid 0, …); the frame
+//	   received must be the reference encoding of the values handed to Send, the caller's object unchanged
 //	E  histories on ONE long-lived client (history.go): sends with the default license, per-send
 //	   overrides (empty, one character, multi-byte), license changes between sends through the exported
 //	   field and through ApplyConfig, packs with different project codes; every frame must be the
@@ -534,6 +537,10 @@ func main() {
 	mutationPhase(env, rep, vh.NewRng(env.Seed*0x2545F491+0x6D75))
 	lap("G re-send after mutation")
 
+	// ---- I: queue mode — Send only enqueues, the frame is built later by process() / SendAndClear
+	queuePhase(env, rep, vh.NewRng(env.Seed*0x51ED270B+0x0C0E))
+	lap("I queued routes")
+
 	// ---- H: the peer resets the connection in the middle of a frame; the client reconnects
 	faultPhase(env, rep, vh.NewRng(env.Seed*0x7F4A7C15+0xFA17))
 	lap("H fault injection")
@@ -570,6 +577,12 @@ func replay(env *vh.Env, rep *vh.Report) {
 		env.Seed, env.Thorough = rf.Seed, rf.Tier == "thorough"
 		rep.Rule = "replay of the fault-injection stage of the recorded seed"
 		faultPhase(env, rep, vh.NewRng(rf.Seed*0x7F4A7C15+0xFA17))
+		return
+	}
+	if strings.Contains(rf.Key, "OneWayTcpClient.queued") || strings.Contains(rf.Key, "(queued)") {
+		env.Seed, env.Thorough = rf.Seed, rf.Tier == "thorough"
+		rep.Rule = "replay of the queued-routes stage of the recorded seed"
+		queuePhase(env, rep, vh.NewRng(rf.Seed*0x51ED270B+0x0C0E))
 		return
 	}
 	if strings.Contains(rf.Key, "resend-after-mutation") {
